@@ -26,7 +26,7 @@ CLAIMED = {
             "Trusted: /verif/ref (frozen copy of the interpreter at the pinned, hardware-validated state plus fix: commits, sha256 recorded), the glue flattening, libstdc++'s uniform_int_distribution mapping, g++. States outside the alphabet (multi-field combinations beyond the bases) are not visited.",
             "DESIGN.md section 4, C01"),
     "C02": ("text", "exhaustive enumeration of all 65536 first words x start addresses through the real decode table, disassembler, assembler, generator and interpreter (fetch log from the memory observer); unused-bit flips taken from the table text",
-            "The opcode space is finite and enumerated completely: row count, agreement of the four consumers on row and length, the exact fetch behaviour of one Run(1) at four start addresses (incl. above 0x1FFFF and near the end of program memory) and the invariance under every bit the table text marks Unused<> are decided for every word, not for the four opcodes the suite executes.",
+            "The opcode space is finite and enumerated completely: row count, agreement of the four consumers on row and length, the exact fetch behaviour of one Run(1) at four start addresses (incl. above 0x1FFFF and near the end of program memory), knowledge of every rendered form by the assembler and the invariance under every bit the table text marks Unused<> are decided for every word; 64 loop programs (block repeat x single repeat x two-word instructions) are stepped cycle by cycle to show that the program counter never rests on an operand word, not for the four opcodes the suite executes.",
             "Trusted: gen_rec.py's parse of the INST table text (names cross-checked against the table object at run time), the memory-observer access log, g++.",
             "DESIGN.md section 4, C02"),
     "C03": ("isa", "exhaustive enumeration of every encoding of the add/sub/compare/logic/inc/dec/neg/rnd/copy families x boundary alphabets of both operands x saturation and flag pre-states, executed on the real interpreter and compared with exact __int128 arithmetic (independent oracle)",
@@ -34,7 +34,7 @@ CLAIMED = {
             "Trusted: the 60-line exact-arithmetic oracle, the transcription of operand encodings in engines/isa/isa_spec.h, g++ __int128. Carve-outs (documented hardware quirks) are listed in the evidence and remain under C01.",
             "DESIGN.md section 4, C03"),
     "C04": ("isa", "exhaustive enumeration of every encoding of the multiply, multiply-accumulate, shift, move-and-shift and exponent families x factor/value alphabets x all 65536 shift amounts (all 2^32 factor pairs in the thorough tier), compared with exact integer models",
-            "Shift amounts are enumerated completely (every 16-bit sv) for one encoding per form and on a boundary set for the others, over both shift modes and saturation modes; multiply forms over 24x24 boundary factors x 4 half-word modes x product shifts x previous products, and in the thorough tier over all 2^32 factor pairs per sign selection; exponent over every (sign, run length) class. The models are exact integer arithmetic independent of the interpreter.",
+            "Shift amounts are enumerated completely (every 16-bit sv) for one encoding per form and on a boundary set for the others, over both shift modes and saturation modes; multiply forms over 24x24 boundary factors x 4 half-word modes x product shifts x previous products, and in the thorough tier over all 2^32 factor pairs per sign selection (22 billion executions, about 9 minutes); the product-sum and dual-multiplier forms (app, mma*, sqr_*, mac1) over 8x8 factors on each unit x half-word mode, previous products x product shifts of both units x accumulators x sv x sata, each unit's product and the sum of the previous products checked separately; exponent over every (sign, run length) class. The models are exact integer arithmetic independent of the interpreter.",
             "Trusted: the exact models (shift, product, product read, exponent), isa_spec.h operand transcription, g++. Saturation after shift is taken to apply in arithmetic mode only; carry at shift amount 0 unchecked.",
             "DESIGN.md section 4, C04"),
     "C05": ("text", "exhaustive enumeration of all 65536 first words (x 12 second words, all 65536 in the thorough tier) through the real disassembler -> parser -> disassembler round trip, execution equality through libimpl.so, C binding under every buffer size with canaries, firmware sources through makedsp1's own main vs the shipped binaries",
@@ -42,23 +42,23 @@ CLAIMED = {
             "Trusted: canary-based detection of out-of-buffer writes (512 guard bytes each side), makedsp1's main compiled with -Dmain=, g++. Execution equality uses 5 base states.",
             "DESIGN.md section 4, C05"),
     "C06": ("sys", "exhaustive enumeration of every partition of the cycle budget (all 2-partitions, 3-partitions, host events at every boundary) for every program of a generated family, compared with the n x Run(1) trace of the same program on the real machine",
-            "For each of ~30k generated programs (idle/busy main lines, six handler kinds, timer modes/start values/routing, second timer, audio periods and fills, mailbox/semaphore/software-IRQ events at every cycle position) the real machine is run once per slicing and its complete observable state after every slice (registers incl. hidden banks, latches, timers, audio port, ICU, APBP, stack, ordered callback log) is compared with the single-step trace. The set of slicings is enumerated completely for 2 (and 3) slices, which is where an idle fast-forward bug has to show.",
+            "For each of ~30k generated programs (idle/busy main lines, six handler kinds, timer modes/start values/routing, second timer, audio periods and fills, mailbox/semaphore/software-IRQ events at every cycle position, conditional self-branches taken and not taken) the real machine is run once per slicing and its complete observable state after every slice (registers incl. hidden banks, latches, timers, audio port, ICU, APBP, stack, ordered callback log) is compared with the single-step trace. The set of slicings is enumerated completely for 2 (and 3) slices, which is where an idle fast-forward bug has to show.",
             "Trusted: snapshot/restore of the plain machine state (MMIO cell backing words are never written with unmodelled bits), g++. Programs are limited to the generated family and n<=48 cycles; the idle flag internal to a Run call is not compared.",
             "DESIGN.md section 4, C06"),
     "C07": ("sys", "explicit-state breadth-first search over the real ICU + interpreter + register file (snapshot/restore through the facade), reference interrupt model stepped in lock-step on every transition",
-            "Two layers: all event sequences up to the depth bound over the full alphabet (trigger, acknowledge and routing of every subset of an IRQ triple, ie/im/imv/ic/cpc writes, instruction boundaries of a fixed program with reti/retic/staying handlers and a rep main line), and the complete reachable state set of fixed routing/mask configurations over trigger/acknowledge/ie/step. After every event the projected real state (request, routing, latches, ip/im/ie, pc, sp, stack words, repeat state, banked im) must equal the model's, which encodes exactly-once delivery, priority, masking, rep blocking, pushed return address and acknowledge semantics. Plus the finite wiring check of the nine peripheral sources.",
-            "Trusted: the 150-line reference model (incl. a 5-instruction interpreter for the fixed program), snapshot/restore of registers/ICU/latches, g++. Nesting bounded at 2; IRQ alphabets of three indices per run (all 16 indices appear across runs).",
+            "Two layers: all event sequences up to the depth bound over the full alphabet (trigger, acknowledge and routing of every subset of an IRQ triple, ie/im/imv/ic/cpc writes, whole-word writes of st0/st2/mod3/stt2/icr, Run(1) and Run(3) of a fixed program with reti/retic/staying handlers and a two-word-branch, rep or brr-idle main line, a one-shot timer that fires inside a later Run), and the complete reachable state set of fixed routing/mask configurations over trigger/acknowledge/ie/step. After every event the projected real state (request, routing, latches, ip/im/ie, pc, sp, stack words, repeat state, banked im) must equal the model's, which encodes exactly-once delivery, priority, masking, rep blocking, pushed return address and acknowledge semantics. Plus the finite wiring check of the nine peripheral sources.",
+            "Trusted: the 170-line reference model (incl. a 6-instruction interpreter for the fixed program and a one-shot timer), snapshot/restore of registers/ICU/latches, g++. Nesting bounded at 2; IRQ alphabets of three indices per run (all 16 indices appear across runs).",
             "DESIGN.md section 4, C07"),
     "C08": ("isa", "exhaustive enumeration of round-trip program pairs (every push/pop operand, call/return form x condition x word order, interrupt entry/exit, context and bank exchanges) x state alphabet on the real interpreter, metamorphic identities as oracle",
-            "Every pushable/poppable operand encoding, every call form with all 16 conditions, both program-counter word orders, three stack positions, every interrupt line with and without context switching and all 64 bank-exchange flag sets are executed from ~1500 states (bases and every 1-field deviation incl. the hidden banks); the identity 'the round trip restores sp, pc, the operand and every other register' is checked field by field, so no reference is needed and defects already present at the pinned commit would show.",
+            "Every pushable/poppable operand encoding, every call form with all 16 conditions, both program-counter word orders, three stack positions, every interrupt line with and without context switching, a fixed-line and a vectored request at the same boundary, and all 64 bank-exchange flag sets are executed from ~7700 states (8 bases and every 1-field deviation of each incl. the hidden banks; the thorough tier adds every 2-field deviation of the reset base, 276k states); the identity 'the round trip restores sp, pc, the operand and every other register' is checked field by field, so no reference is needed and defects already present at the pinned commit would show.",
             "Trusted: the hand-assembled opcodes in engines/isa/c08_stack.h, isa_spec.h, g++. Preconditions as in the statement (saturation disabled, no loop active, product shift 0, 33rd product bit consistent).",
             "DESIGN.md section 4, C08"),
     "C09": ("isa", "exhaustive enumeration of a generated loop-program family (counts, bodies, nesting shapes up to depth 4, register/immediate counts, store/restore of frames) on the real interpreter, each compared with its unrolled program (program-pair equivalence)",
-            "Every program of the family (rep with counts 0..8,255,256(,65535) x 12 bodies; bkrep with all 1-3 instruction bodies x counts 0..3, two-word last instruction, every nesting shape to depth 4 with counts in {0,1,2}, rep inside blocks incl. as last instruction, break, frame store/restore at depth 0-4) is executed and compared with its straight-line unrolling on the same interpreter; equality is over the whole register file except the loop-control registers plus the multiset of memory writes; the visible counter sequence and the cleared loop state are checked explicitly.",
+            "Every program of the family (4 base states in two program pages; rep with counts 0..8,255,256,65535 x 12 bodies and the count taken from every Register operand incl. halves of accumulators outside the 32-bit range; bkrep with all 1-3 instruction bodies x counts 0..3, two-word last instruction, every nesting shape to depth 4 with counts in {0,1,2}, rep inside blocks incl. as last instruction, break, frame store/restore at depth 0-4) is executed and compared with its straight-line unrolling on the same interpreter; equality is over the whole register file except the loop-control registers plus the multiset of memory writes; the visible counter sequence and the cleared loop state are checked explicitly.",
             "Trusted: the program generator/unroller (60 lines), hand-assembled opcodes, g++. Each nesting level ends at its own address (precondition recorded in DESIGN).",
             "DESIGN.md section 4, C09"),
     "C10": ("isa", "exhaustive enumeration of address-register stepping: all 8 registers x all 65536 start values x step kinds x modes, all 512 modulo values x all offsets, all 128 configured steps, every ar/arp selector and step code, through the real addressing instructions; linear / cyclic-walk / bit-reverse arithmetic as oracle",
-            "The value domains of this property are small enough to sweep completely per dimension (every start address, every modulo value with every offset, every 7-bit step, every selector), so the stepping rules are decided for the whole space rather than at sampled points; the access address is read from the memory observer, so 'uses the pre-modified / bit-reversed value' is checked on the real access.",
+            "The value domains of this property are small enough to sweep completely per dimension (every start address, every modulo value with every offset, every 7-bit step, every selector), so the stepping rules are decided for the whole space rather than at sampled points; the access address is read from the memory observer, so 'uses the pre-modified / bit-reversed value' is checked on the real access. Two generic layers run over all 65536 first words: every form that names address registers with steps (directly, or through ar/arp selectors in 4 configurations) must step them as configured, and every form that accesses memory at an address register's value must access the bit-reversed address once bit reversal is enabled for that register.",
             "Trusted: the 50-line step model written from the statement, hand-assembled addressing opcodes, g++. With modulo enabled only steps +1/-1/0 are defined by the statement (other steps: alignment guarantee only).",
             "DESIGN.md section 4, C10"),
     "C11": ("sys", "exhaustive enumeration of all 2^18 memory words x all views (host accessors, raw bytes, instruction fetch, 13 guest load/store forms, movp/movd) and of all MMIO window bases x boundary offsets on the real machine, memory observer as write oracle",
@@ -78,7 +78,7 @@ CLAIMED = {
             "Trusted: the reference handshake model, g++, snapshot/restore of Apbp fields through -fno-access-control. Payloads restricted to {1,2}, semaphore bits to {0,1,15}.",
             "DESIGN.md section 4, C14"),
     "C15": ("periph", "explicit-state breadth-first search over the real Timer object, reference model in lock-step on every transition, Skip(k) vs k x Tick differential on every state",
-            "All states of the timer reachable within the depth bound over the full alphabet, and the complete reachable set of the finite sub-machine (start<=3, no free-running), are visited; in every state every event including Skip(k) for every k up to the reported horizon is applied to the real object and compared with the statement's model and with k real Ticks.",
+            "All states of the timer reachable within the depth bound over the full alphabet, and the complete reachable set of the finite sub-machine (start<=3, no free-running), are visited; in every state every event including Skip(k) for every k up to the reported horizon is applied to the real object and compared with the statement's model and with k real Ticks; a third layer puts two timers on one CoreTiming (180 x 180 state pairs x 7 budgets) and compares the aggregated fast-forward with that many aggregated cycles.",
             "Trusted: the 60-line reference model of the statement, g++. Time scale fixed at 0. Counter values beyond those reachable from the start alphabet {0,1,2,3,0xFFFF}x{0,1,0xFFFF} within the depth are not visited.",
             "DESIGN.md section 4, C15"),
     "C16": ("periph", "explicit-state breadth-first search to fixpoint over the real Btdmp object per period, reference FIFO + frame clock in lock-step, Skip(k) vs k x Tick differential",
@@ -89,16 +89,16 @@ CLAIMED = {
             "All histories of length <= 2 over a 34-call API alphabet are executed on three instances whose heap is pre-filled with different patterns (with and without an initial Reset), and every pair (h1 of length <= 2, h2 of length <= 1) is executed as h1;Reset;h2 and compared with fresh;Reset;h2; the observation covers every modelled component (registers incl. hidden banks, latches, MIU, ICU incl. vectors, APBP, timers, audio port, DMA, AHBM incl. burst queues, the whole memory, host getters, callback log). Uninitialised members and incomplete resets are history-dependent bugs that need exactly this kind of exhaustive pairing to show.",
             "Trusted: operator-new replacement as the allocation seam (malloc'd memory is not filled), g++, -fno-access-control observation of private state. Raw backing words of unimplemented MMIO fields and DMA transfer-internal counters are not observed.",
             "DESIGN.md section 4, C17"),
-    "C18": ("safety", "exhaustive enumeration of guest-controllable inputs (all 65536 opcodes x second words x reachable states x pc/prpage extremes, control-flow forms to the edges of program memory, every MMIO offset x value alphabet x both paths, DMA/AHBM configuration extremes) on a sanitizer build, with the memory observer rejecting any out-of-range DSP memory word address; outcome classification per case",
+    "C18": ("safety", "exhaustive enumeration of guest-controllable inputs (all 65536 opcodes x second words x reachable states x pc/prpage extremes, all opcodes x boundary values of the shift-amount register, control-flow forms to the edges of program memory, every MMIO offset x value alphabet x both paths, DMA/AHBM configuration extremes) on a sanitizer build, with the memory observer rejecting any out-of-range DSP memory word address; outcome classification per case",
             "Each family is a finite product that is executed completely (the DMA mode product is reduced in the quick tier); every case runs in a supervised child so that a sanitizer abort, a libstdc++ index assertion, a bounds-oracle hit or a hang is attributed to exactly one case and replayed alone; acceptable outcomes are exactly the three the statement allows.",
             "Trusted: clang 14 AddressSanitizer/UBSan (incl. detect_stack_use_after_return), _GLIBCXX_ASSERTIONS, the memory-observer hook, the 10 s per-case watchdog. Register states are reachable ones; uninitialised reads are outside ASan's scope (C17 covers constructor-uninitialised members).",
             "DESIGN.md section 4, C18"),
-    "C19": ("sched", "stateless model checking of the real code under a controlled scheduler: DFS over all schedules of six two-thread harnesses up to a preemption bound (iterative 0..3, thorough 0..5), state-hash pruning at choice points, per-schedule oracle; data races by ThreadSanitizer in a separate free-running pass of the same bodies",
-            "Every interleaving of the host API calls and the DSP's instruction stream at the granularity of lock operations, latch accesses and instruction/call boundaries is executed up to the preemption bound, so lost updates, check-then-act windows, missed interrupt deliveries and (self-)deadlocks that need one to three specific preemptions are found deterministically and replayed from a recorded schedule; unsynchronised accesses, which a serialising scheduler cannot see, are caught by ThreadSanitizer on the same bodies running free.",
+    "C19": ("sched", "stateless model checking of the real code under a controlled scheduler: DFS over all schedules of six two-thread harnesses up to a preemption bound (iterative 0..4, thorough 0..10), state-hash pruning at choice points, per-schedule oracle; data races by ThreadSanitizer in a separate free-running pass of the same bodies",
+            "Every interleaving of the host API calls and the DSP's instruction stream at the granularity of lock operations, latch accesses and instruction/call boundaries is executed up to the preemption bound, so lost updates, check-then-act windows, missed interrupt deliveries and (self-)deadlocks that need up to four (ten) specific preemptions are found deterministically and replayed from a recorded schedule; unsynchronised accesses, which a serialising scheduler cannot see, are caught by ThreadSanitizer on the same bodies running free.",
             "Trusted: the scheduler (coroutines, mutex ownership model incl. recursive mutexes, yield/spin detection), glibc's pthread_mutex_t kind field, ThreadSanitizer, g++/clang. Sequential consistency assumed for the explored interleavings; two threads; DSP horizon 120-160 instructions.",
             "DESIGN.md section 4, C19"),
     "C20": ("isa", "exhaustive enumeration of all 65536 values of each of the 19 status/config words from a state alphabet through the real pseudo-register accessors and instruction paths, against a hand-written bit-layout table (field-by-field equality of the whole register file, alias read-back, depth-2 aliased writes)",
-            "Each word has only 65536 values, so write/read-back/frame behaviour is decided for every value from every base state, and from every 1-field deviation for a value alphabet; the oracle is a layout table applied to the flattened register file, so a wrong bit position, a field written that the word does not map, a read-only bit that becomes writable or an alias that drifts apart is found whatever the value.",
+            "Each word has only 65536 values, so write/read-back/frame behaviour is decided for every value from every base state, and from every 1-field deviation for a value alphabet; the oracle is a layout table applied to the flattened register file, so a wrong bit position, a field written that the word does not map, a read-only bit that becomes writable or an alias that drifts apart is found whatever the value. The interpreter's own reading of the ar/arp words is checked through executed instructions: for every opcode whose form selects a register through ar/arp, all offset codes are written into the selected slot (decoys elsewhere) and the addresses touched next to the selected register must be displaced by exactly that slot's offset.",
             "Trusted: the layout table in engines/isa/c20_words.h (transcribed from the TeakLite/Teak register layouts; cross-checked against the flag legends printed by test_verifier), the glue flattening, g++. The annotated disassembler's reading of ar/arp is covered with C05's text engine.",
             "DESIGN.md section 4, C20"),
 }
